@@ -30,6 +30,7 @@ MECHANISMS = [('cgsmiles.graph_utils', 'sort_nodes_by_attr'), ('cgsmiles.graph_u
               ('cgsmiles.graph_utils', 'merge_graphs'), ('cgsmiles.resolve', 'MoleculeResolver.from_graph'),
               ('cgsmiles.resolve', 'MoleculeResolver.from_fragment_dicts')]
 REQUIRED_COUNTERS = ['resolve_calls_observed', 'reference_digests']
+CASE_TIMEOUT = 3600      # one case is a whole history with reference runs in forked processes
 NSHARDS = {'quick': 16, 'thorough': 16}
 SIZES = {'quick': dict(histories=16, inputs=8, seeds=['0', '1', 'random']), 'thorough': dict(histories=160, inputs=25, seeds=['0', '1', '2', '3', '7', '42', '1234', 'random', 'random', 'random', 'random', 'random'])}
 
@@ -175,7 +176,7 @@ def reference_digests(jobs, hashseed):
     envv['PYTHONHASHSEED'] = hashseed
     envv['PBR_VERSION'] = '0.0.0'
     p = subprocess.run([sys.executable, '-m', 'vmon.solo'], input=json.dumps(jobs), capture_output=True, text=True,
-                       cwd=env.VERIF, env=envv, timeout=1200)
+                       cwd=env.VERIF, env=envv, timeout=3000)
     if p.returncode != 0:
         raise RuntimeError('reference runner failed: ' + p.stderr[-800:])
     return json.loads(p.stdout)
